@@ -221,6 +221,7 @@ type intSetAnalysis struct {
 	inPkg func(*ssa.Function) bool
 	memo  map[string]intSet
 	depth int
+	prog  *Prog // optional: lets the analysis read package-level table literals
 }
 
 // sameIntValue: a is v seen through value-preserving conversions.
@@ -251,6 +252,47 @@ func (ia *intSetAnalysis) base(v ssa.Value, depth int, use *ssa.BasicBlock) intS
 	case *ssa.Extract:
 		if call, ok := x.Tuple.(*ssa.Call); ok {
 			return ia.resultAt(call, x.Index, depth+1, use)
+		}
+		// `proto, supported := table[ver]` on a package-level map literal of integer constants that is only read: one of
+		// the literal's values where `supported` is known to be true, else also the zero value
+		if lk, ok := x.Tuple.(*ssa.Lookup); ok && lk.CommaOk && x.Index == 0 && ia.prog != nil {
+			if u, ok := lk.X.(*ssa.UnOp); ok {
+				if g, ok := u.X.(*ssa.Global); ok {
+					if vals, ok := ia.prog.intMapLiteralValues(g); ok {
+						out := isBottom()
+						for _, k := range vals {
+							out = out.join(isConstSet(k))
+						}
+						known := false
+						for _, r := range referrers(lk) {
+							if e, ok := r.(*ssa.Extract); ok && e.Index == 1 && use != nil {
+								for _, r2 := range referrers(e) {
+									cond, neg := ssa.Value(e), false
+									if un, ok := r2.(*ssa.UnOp); ok && un.Op == token.NOT {
+										cond, neg = un, true
+									}
+									for _, r3 := range referrers(cond) {
+										if ifi, ok := r3.(*ssa.If); ok {
+											side := 0
+											if neg {
+												side = 1
+											}
+											sc := ifi.Block().Succs[side]
+											if len(sc.Preds) == 1 && (sc == use || sc.Dominates(use)) {
+												known = true
+											}
+										}
+									}
+								}
+							}
+						}
+						if !known {
+							out = out.join(isConstSet(0))
+						}
+						return out
+					}
+				}
+			}
 		}
 	case *ssa.Call:
 		return ia.result(x.Call.StaticCallee(), 0, depth+1)
